@@ -281,7 +281,7 @@ impl NatWorker {
             (StepOut::Panic(p), s) => {
                 bucket = Bucket::OutcomeMismatch;
                 diffs.push(Diff {
-                    observable: format!("panic@{}/native_{}", p.loc, sig_name(s)),
+                    observable: format!("panic@{}/native_{}", p.tag(), sig_name(s)),
                     detail: format!("emulator panicked: {}", emu::first_line(&p.msg)),
                 });
             }
